@@ -395,7 +395,7 @@ def gen_case(rng: SimRng, tier: str) -> dict:  # noqa: ARG001, C901, PLR0912
     views = ["variables", "fluxes", "get_args", "get_variables", "get_fluxes", "get_combined", "get_right_hand_side", "get_producers", "get_consumers", "get_new_y0"]
     for _ in range(r.randint(3, 10)):
         if r.random() < 0.2:
-            ns = r.sample([p for p in params if p != "n"], r.randint(1, 2))
+            ns = r.sample(params, r.randint(1, 2))  # includes the coefficient parameter n (kept positive)
             ops.append({"op": "mutate", "how": r.choice(["update", "scale"]), "items": [[n, r.choice([0.25, 0.5, 2.0, 5.0])] for n in ns]})
             continue
         if r.random() < 0.08:
